@@ -346,6 +346,14 @@ pub fn run(op: &str, t: &[&str], v: &[Val], out: &mut Out) -> bool {
                     x.assign_from_slice(&w);
                     x
                 });
+                // receivers whose current length is at, just below and just above the length the slice denotes
+                for (nm, k) in [("assign_f", w.len() / 2), ("assign_c", (w.len() + 1) / 2), ("assign_p", w.len() / 2 + 1), ("assign_1", 1), ("assign_0", 0)] {
+                    out.named(nm, || {
+                        let mut x = BigUint::from_slice(&vec![0x9u32; 2 * k]);
+                        x.assign_from_slice(&w);
+                        x
+                    });
+                }
             } else {
                 let s = sign_of(t[1]);
                 out.named("new", || BigInt::new(s, w.clone()));
@@ -355,6 +363,13 @@ pub fn run(op: &str, t: &[&str], v: &[Val], out: &mut Out) -> bool {
                     x.assign_from_slice(s, &w);
                     x
                 });
+                for (nm, k) in [("assign_f", w.len() / 2), ("assign_c", (w.len() + 1) / 2), ("assign_p", w.len() / 2 + 1), ("assign_1", 1), ("assign_0", 0)] {
+                    out.named(nm, || {
+                        let mut x = BigInt::from_slice(Sign::Minus, &vec![0x9u32; 2 * k]);
+                        x.assign_from_slice(s, &w);
+                        x
+                    });
+                }
             }
         }
         // iter <32|64> A op op ...     ops: n b t<k> l h L c
